@@ -278,7 +278,8 @@ func runC18(c *Check) {
 				"LoadGenesis can return a genesis without a successful Validate", g, g.PathAvoiding([]*Node{g.Entry}, nodeSet(succ), nodeSet(validOK)))
 		}
 	}
-	_ = constant.MakeBool
+	c.Doc("C18-R5", "CT: configuration and genesis files are written by replacing the whole file.")
+	ruleConfigWritersTruncate(c, p)
 }
 
 // fieldPath: for a term X.A.B.C rooted at a global/call, returns "A.B.C" and the root's name.
@@ -308,4 +309,66 @@ func fieldPath(t *Term) (string, string) {
 		}
 	}
 	return strings.Join(parts, "."), root
+}
+
+// ruleConfigWritersTruncate (C18-R5): a configuration / genesis file is written with
+// os.WriteFile / os.Create, or with os.OpenFile whose constant flags truncate (O_TRUNC) or refuse
+// an existing file (O_EXCL); otherwise saving a shorter configuration over a longer one leaves the
+// old tail behind and the file no longer loads back equal.
+func ruleConfigWritersTruncate(c *Check, p *Prog) {
+	rule := "C18-R5"
+	osPkg := p.byPkg[configPkg].Imports["os"]
+	flag := func(name string) int64 {
+		if osPkg == nil {
+			return -1
+		}
+		k, ok := osPkg.Types.Scope().Lookup(name).(*types.Const)
+		if !ok {
+			return -1
+		}
+		v, _ := constant.Int64Val(k.Val())
+		return v
+	}
+	oW, oRW, oT, oX := flag("O_WRONLY"), flag("O_RDWR"), flag("O_TRUNC"), flag("O_EXCL")
+	n := 0
+	for _, pkgPath := range []string{configPkg, rootPath + "/pkg/genesis"} {
+		for _, fn := range p.Funcs {
+			pk := fnPkg(fn)
+			if pk == nil || pk.Pkg.Path() != pkgPath {
+				continue
+			}
+			for _, b := range fn.Blocks {
+				for _, in := range b.Instrs {
+					call, ok := in.(*ssa.Call)
+					if !ok {
+						continue
+					}
+					switch commonName(call.Common()) {
+					case "os.WriteFile", "os.Create":
+						n++
+						c.OK(rule, fnShort(fn)+" ⟂ "+commonName(call.Common()), fnName(fn), p.InstrPos(in), "replaces the whole file", false)
+					case "os.OpenFile":
+						k, isK := call.Common().Args[1].(*ssa.Const)
+						if !isK {
+							c.Unk(rule, fnShort(fn)+" ⟂ os.OpenFile", fnName(fn), p.InstrPos(in), "non-constant open flags")
+							continue
+						}
+						fl := k.Int64()
+						if fl&(oW|oRW) == 0 {
+							continue // read-only
+						}
+						n++
+						if fl&oT != 0 || fl&oX != 0 {
+							c.OK(rule, fnShort(fn)+" ⟂ os.OpenFile", fnName(fn), p.InstrPos(in), "opened for writing with O_TRUNC or O_EXCL", true)
+						} else {
+							c.Bad(rule, fnShort(fn)+" ⟂ os.OpenFile", fnName(fn), p.InstrPos(in), fmt.Sprintf("the file is opened for writing without O_TRUNC/O_EXCL (flags %#x): saving a configuration that serialises shorter than the file already on disk leaves the old tail behind; the file becomes malformed, Load ignores the read error and silently returns the defaults", fl), nil)
+						}
+					}
+				}
+			}
+		}
+	}
+	if n < 2 {
+		c.Unk(rule, "file-writers", "", "", fmt.Sprintf("anchor lost: %d file writers in pkg/config and pkg/genesis", n))
+	}
 }
